@@ -145,6 +145,27 @@ def run(ck):
                     for dc, tc in DIAGONAL:
                         cx, ox = run_one(dc, tc)
                         compare(ck, 'C15.time', test, f'{dc}+{tc}', cb, ob, cx, ox)
+    # time-valued valid_range_test: the instants in every container, the bounds in other units / spellings than the data, an open side
+    from ..models_pd import TS
+    tt = [100, 110, 120, 130]
+    spans = {
+        'bounds datetime64[s] / [ns]': (Sc(X.num(105), 'M8', 's'), Sc(X.num(125), 'M8', 'ns')),
+        'bounds datetime64[m] / Timestamp': (Sc(X.num(60), 'M8', 'm'), TS(125)),
+        'upper side open (None)': (Sc(X.num(105), 'M8', 's'), None),
+        'lower side open (NaT)': (Sc(X.NAN, 'M8', 'ns'), Sc(X.num(120), 'M8', 's')),
+    }
+    for sname, span in spans.items():
+        def run_v(tc):
+            c = Case('valid_range_test', [time_input('inp', tt, tc)], dict(valid_span=span), n=len(tt), pat={}, meta={'class': f'time-valued/{tc}'},
+                     label=f'valid_range_test(instants {tt} s; {sname}; inp as {tc})')
+            return c, run_case(ck, c, allow_refused=True)
+        cb, ob = run_v('dt64')
+        for tc in ('dt64_s', 'series', 'series_tz', 'dtindex', 'dt64_scalar_list', 'dt64_scalar_tuple', 'timestamp_list', 'pydatetime', 'series_s'):
+            try:
+                cx, ox = run_v(tc)
+            except ValueError:
+                continue
+            compare(ck, 'C15.time', 'valid_range_test', f'{tc}:time-valued:{sname}', cb, ob, cx, ox)
     for test, build in mixed_tests():
         p = pats[0]
 
